@@ -430,7 +430,10 @@ String File::getStem(const String& file, const String& extension)
   const char* result;
   for(; pos >= start; --pos)
     if(*pos == '.')
-      dot = pos;
+    {
+      if(!dot) // the last dot, like getExtension
+        dot = pos;
+    }
     else if(*pos == '\\' || *pos == '/')
     {
       result = pos + 1;
